@@ -46,6 +46,13 @@ theorem step_wf {s s' : State} {op : Op} {r : Res} (hw : WF s) (e : step s op = 
   | curFromBuf c b =>
     simp only [step] at e; cases e
     exact hw.setCur (hw.bufOk b).asCur
+  | curSub dst src off len =>
+    simp only [step] at e
+    split at e
+    · rename_i hg
+      cases e
+      exact hw.setCur ((hw.curOk src).sub (a := off) (l := len) hg.1)
+    · cases e; exact hw
   | bufFromArray b bs =>
     simp only [step] at e
     split at e
